@@ -81,10 +81,22 @@ func ModuleEntries() []Entry {
 			if f.Flip("align") {
 				tail += ", align 16"
 			}
-			if f.Flip("metadata") {
+			switch f.N("metadata", 4) {
+			case 1:
 				id := f.MDID()
 				f.TailLine("!%d = !{i32 1}", id)
 				tail += fmt.Sprintf(", !foo !%d", id)
+			case 2: // several attachments of ONE kind (globals and functions keep all of them)
+				id, id2 := f.MDID(), f.MDID()
+				f.TailLine("!%d = !{i32 1}", id)
+				f.TailLine("!%d = !{i32 2}", id2)
+				tail += fmt.Sprintf(", !foo !%d, !foo !%d", id, id2)
+			case 3:
+				id, id2, id3 := f.MDID(), f.MDID(), f.MDID()
+				f.TailLine("!%d = !{i32 1}", id)
+				f.TailLine("!%d = !{i32 2}", id2)
+				f.TailLine("!%d = !{i32 3}", id3)
+				tail += fmt.Sprintf(", !foo !%d, !bar !%d, !foo !%d", id, id2, id3)
 			}
 			if f.Flip("attributes") {
 				id := f.AttrID()
@@ -331,10 +343,16 @@ func funcHeader(f *Frag, def bool) {
 		}
 	}
 	md := ""
-	if f.Flip("metadata") {
+	switch f.N("metadata", 3) {
+	case 1:
 		id := f.MDID()
 		f.TailLine("!%d = !{i32 5}", id)
 		md = fmt.Sprintf(" !foo !%d", id)
+	case 2: // two attachments of one kind
+		id, id2 := f.MDID(), f.MDID()
+		f.TailLine("!%d = !{i32 5}", id)
+		f.TailLine("!%d = !{i32 6}", id2)
+		md = fmt.Sprintf(" !foo !%d !foo !%d", id, id2)
 	}
 	hdr := fmt.Sprintf("%s%s%s%s%s%s%s @%s(%s)%s%s%s%s%s%s%s%s%s", link, pre, vis, dll, cc, ra, rt, name, strings.Join(params, ", "), ua, as, fa, sec, part, comdat, al, gc, extra)
 	if def {
